@@ -306,7 +306,7 @@ where
         });
     }
 
-    let original = original.into_iter();
+    let mut original = original.into_iter();
     let mut recovery = recovery.into_iter();
 
     let (shard_bytes, first_recovery) = if let Some(first_recovery) = recovery.next() {
@@ -314,17 +314,31 @@ where
     } else {
         // NO RECOVERY SHARDS
 
-        let original_received_count = original.count();
-        if original_received_count == original_count {
-            // Nothing to do, original data is complete.
-            return Ok(HashMap::new());
+        // Shard size is inferred from the first original shard and the given
+        // original shards are validated exactly like in the general case.
+        let Some((first_index, first_original)) = original.next() else {
+            return Err(Error::NotEnoughShards {
+                original_count,
+                original_received_count: 0,
+                recovery_received_count: 0,
+            });
+        };
+
+        let mut decoder = ReedSolomonDecoder::new(
+            original_count,
+            recovery_count,
+            first_original.as_ref().len(),
+        )?;
+
+        decoder.add_original_shard(first_index, first_original)?;
+        for (index, original) in original {
+            decoder.add_original_shard(index, original)?;
         }
 
-        return Err(Error::NotEnoughShards {
-            original_count,
-            original_received_count,
-            recovery_received_count: 0,
-        });
+        // Either original data is complete and there is
+        // nothing to restore, or there are not enough shards.
+        decoder.decode()?;
+        return Ok(HashMap::new());
     };
 
     let mut decoder = ReedSolomonDecoder::new(original_count, recovery_count, shard_bytes)?;
